@@ -347,3 +347,27 @@ def r8(ctx, R):
             R.exc(f'{ci.name} -> {owner.name}.update_nodes', w, 'DAE project sweeper outside the anchored pair (RK-DAE / MPI-DAE): signature not spec\'d')
         else:
             R.note(f'{ci.name} -> {owner.name}.update_nodes', w, 'sweep implementation without a reference signature: NOT covered by C02.R1-R4')
+
+
+@rule('C02', 'C02.R9', 'derived coefficient matrices of the second-order sweepers (QT, Qx, QQ, qQ, S-matrices) are defined as the formulas say', floor=4)
+def r9(ctx, R):
+    with open(os.path.join(os.path.dirname(SPEC), 'second_order_matrices.json')) as fh:
+        spec = json.load(fh)['signatures']
+    from ..sig import Signature
+    repo = ctx.repo
+    for rel, cn in sw.SECOND_ORDER:
+        ci = repo.cls(rel, cn)
+        for m in ('__init__', '__get_Qd'):
+            fn = ci.methods.get(m)
+            if fn is None:
+                raise AnalysisError(f'{rel}:{cn}.{m} vanished')
+            w = f'{rel}:{cn}.{m}'
+            R.fn(w)
+            sig = Signature(fn, rename={})
+            lines = [l.text() for l in sig.lines if re.match(r'^(self\.(QT|Qx|QQ|qQ|S|ST|SQ|Sx|QI|Q)\b|QI|QE|QT|Qx|QQ|S|ST|SQ|Sx|Q)\b', l.target)]
+            rets = ['RETURN ' + sig.N.canon(s.value) for s in ast.walk(fn) if isinstance(s, ast.Return) and s.value is not None]
+            found = lines + rets
+            exp = spec[f'{cn}.{m}']['lines']
+            missing = [e for e in exp if e not in found]
+            extra = [f for f in found if f not in exp]
+            R.check(not missing and not extra, f'{cn}.{m} :: definitions of the derived matrices', w, missing[:4], extra[:4])
